@@ -492,6 +492,14 @@ def l4(rep, w):
             if len(t['args']) >= k and 'ip' in operand_fields(f, org, t['args'][k - 1]):
                 return True
         return False
+    # a recording helper records unconditionally: "keep the site that is already there" makes a second exception, raised while the first
+    # is passing through a finally block, report the first one's line
+    for rp in sorted(recorders):
+        g = w.fns[rp]
+        sb = {bi for (bi, isnone, _) in stores.get(rp, ()) if not isnone}
+        r.check(c01.all_paths_hit(g, None, sb), '%s stores the site on every path' % rp.rsplit('::', 1)[-1],
+                '%s does not always store the site it is given (it keeps an earlier one on some path): an error raised while another exception is in flight is reported at that '
+                'other exception\'s site' % rp, g.loc())
     callers = sorted(f.path for f in w.yarel.fns.values() if any(callee_name(t) == UNW for _, t in f.calls()))
     raises = [p for p in callers if p != RETHROW]
     if len(raises) < 3:
